@@ -124,8 +124,8 @@ func callObs(cursor string, err error) any {
 	s := err.Error()
 	f := func(w string) any { return map[string]any{"failed": w} }
 	switch {
-	case strings.Contains(s, "scripted refusal"), strings.Contains(s, "list tools error:"):
-		return "rpc"
+	case strings.Contains(s, "scripted refusal"), strings.Contains(s, "list tools error:"), strings.Contains(s, "failed to parse error response"):
+		return "rpc" // the answer carried an `error` member: the client reports it (or its unparsable shape) as an error
 	case strings.Contains(s, "failed to unmarshal response"):
 		return f("decode")
 	case strings.Contains(s, "response missing result field"):
@@ -167,7 +167,7 @@ type worker struct {
 	baseCPU     float64
 	baseLog     int64
 	haveBase    bool
-	pendingDone []func() // closes still running in the background
+	finish      func() // completes the last observation (a Close still running in the background)
 }
 
 var info = mcp.Implementation{Name: "verif-readers", Version: "1"}
@@ -196,8 +196,10 @@ func doList(ctx context.Context, c mcp.Connector, cursor string) callRes {
 	return callRes{callObs(cursorOf(res), err), float64(time.Since(t0)) / 1e6}
 }
 
-// closeWithCeiling runs Close and waits for it up to the ceiling.
-func closeWithCeiling(obs *Obs, lg *countLogger, closeFn func() error, ceiling time.Duration, afterWindow time.Duration) {
+// closeWithCeiling runs Close and waits for it up to the ceiling.  A Close that has not returned after `patience` is
+// waited for in the background (the returned function completes the observation): StdioClient.Close stalls 5 s every
+// few runs whatever the server did (its own Cmd.Wait competes with processWatcher's), which must not serialise the run.
+func closeWithCeiling(obs *Obs, lg *countLogger, closeFn func() error, ceiling, afterWindow, patience time.Duration) (finish func()) {
 	t0 := time.Now()
 	done := make(chan error, 1)
 	go func() { done <- closeFn() }()
@@ -205,21 +207,30 @@ func closeWithCeiling(obs *Obs, lg *countLogger, closeFn func() error, ceiling t
 		time.Sleep(30 * time.Millisecond) // close() marks the transport closed first; then the loop must be quiet
 		obs.LogAfterClose, _, _ = window(lg, afterWindow)
 	}
-	select {
-	case e := <-done:
-		obs.CloseReturned = true
-		if e != nil {
-			obs.CloseErr = e.Error()
+	wait := func(d time.Duration) bool {
+		select {
+		case e := <-done:
+			obs.CloseReturned = true
+			if e != nil {
+				obs.CloseErr = e.Error()
+			}
+			obs.CloseMs = float64(time.Since(t0)) / 1e6
+			return true
+		case <-time.After(d):
+			obs.CloseMs = float64(time.Since(t0)) / 1e6
+			return false
 		}
-	case <-time.After(ceiling):
 	}
-	obs.CloseMs = float64(time.Since(t0)) / 1e6
+	if wait(patience) || patience >= ceiling {
+		return nil
+	}
+	return func() { wait(ceiling - time.Since(t0)) }
 }
 
 // ---------- streamable HTTP client: JSON body, POST-SSE, GET stream
 
-func (w *worker) runStreamable(cs *Case) (obs Obs) {
-	obs = Obs{N: cs.N, Notes: []int{}, Answers: []answerObs{}}
+func (w *worker) runStreamable(cs *Case, obs *Obs) {
+	*obs = Obs{N: cs.N, Notes: []int{}, Answers: []answerObs{}}
 	key := fmt.Sprint(cs.N)
 	st := newCaseState(cs)
 	states.Store(key, st)
@@ -274,14 +285,14 @@ func (w *worker) runStreamable(cs *Case) (obs Obs) {
 	st.mu.Lock()
 	obs.Answers = append(obs.Answers, st.answers...)
 	st.mu.Unlock()
-	closeWithCeiling(&obs, lg, cl.Close, 5*time.Second, 0)
+	closeWithCeiling(obs, lg, cl.Close, 5*time.Second, 0, 5*time.Second)
 	return
 }
 
 // ---------- legacy SSE client
 
-func (w *worker) runLegacy(cs *Case) (obs Obs) {
-	obs = Obs{N: cs.N, Notes: []int{}, Answers: []answerObs{}}
+func (w *worker) runLegacy(cs *Case, obs *Obs) {
+	*obs = Obs{N: cs.N, Notes: []int{}, Answers: []answerObs{}}
 	key := fmt.Sprint(cs.N)
 	st := newCaseState(cs)
 	st.base = w.srv.legacy.URL
@@ -336,7 +347,7 @@ func (w *worker) runLegacy(cs *Case) (obs Obs) {
 	cancel()
 	obs.Next, obs.NextMs = r.obs, r.ms
 	if err == nil {
-		w.collect(&obs, results, cancels)
+		w.collect(obs, results, cancels)
 	} else {
 		obs.PendingReturned = true
 	}
@@ -345,7 +356,7 @@ func (w *worker) runLegacy(cs *Case) (obs Obs) {
 	st.mu.Lock()
 	obs.Answers = append(obs.Answers, st.answers...)
 	st.mu.Unlock()
-	closeWithCeiling(&obs, lg, cl.Close, 5*time.Second, 0)
+	closeWithCeiling(obs, lg, cl.Close, 5*time.Second, 0, 5*time.Second)
 	return
 }
 
@@ -441,8 +452,8 @@ func (w *worker) baseline() {
 	go sc.Close()
 }
 
-func (w *worker) runStdio(cs *Case) (obs Obs) {
-	obs = Obs{N: cs.N, Notes: []int{}, Answers: []answerObs{}}
+func (w *worker) runStdio(cs *Case, obs *Obs) {
+	*obs = Obs{N: cs.N, Notes: []int{}, Answers: []answerObs{}}
 	w.baseline()
 	obs.BaselineCPUMs, obs.BaselineLog = w.baseCPU, w.baseLog
 	lg := &countLogger{}
@@ -502,7 +513,7 @@ func (w *worker) runStdio(cs *Case) (obs Obs) {
 	r := doList(ctx, sc, "next")
 	cancel()
 	obs.Next, obs.NextMs = r.obs, r.ms
-	w.collect(&obs, results, cancels)
+	w.collect(obs, results, cancels)
 	obs.LogWindow, obs.CPUWindowMs, obs.WindowMs = window(lg, 200*time.Millisecond)
 	obs.Notes = rec.take()
 	sort.Ints(obs.Notes)
@@ -515,24 +526,27 @@ func (w *worker) runStdio(cs *Case) (obs Obs) {
 			}
 		}
 	}
-	closeWithCeiling(&obs, lg, sc.Close, 9*time.Second, 100*time.Millisecond)
+	w.finish = closeWithCeiling(obs, lg, sc.Close, 9*time.Second, 100*time.Millisecond, 300*time.Millisecond)
 	return
 }
 
-func (w *worker) runCase(cs *Case) (obs Obs) {
+func (w *worker) runCase(cs *Case) (obs *Obs) {
+	obs = &Obs{}
+	w.finish = nil
 	defer func() {
 		if r := recover(); r != nil {
-			obs = Obs{N: cs.N, HarnessErr: fmt.Sprint("harness panic: ", r), Notes: []int{}, Answers: []answerObs{}}
+			*obs = Obs{N: cs.N, HarnessErr: fmt.Sprint("harness panic: ", r), Notes: []int{}, Answers: []answerObs{}}
 		}
 	}()
 	switch cs.C {
 	case "readers.legacy":
-		return w.runLegacy(cs)
+		w.runLegacy(cs, obs)
 	case "readers.stdio":
-		return w.runStdio(cs)
+		w.runStdio(cs, obs)
 	default:
-		return w.runStreamable(cs)
+		w.runStreamable(cs, obs)
 	}
+	return
 }
 
 const (
@@ -552,12 +566,27 @@ func workerMain() {
 		os.Exit(3)
 	}
 	w := &worker{srv: startServers(), dir: filepath.Dir(os.Getenv(outEnv))}
-	for _, cs := range batch {
-		fmt.Fprintf(out, "{\"start\":%d}\n", cs.N)
-		obs := w.runCase(cs)
+	var mu sync.Mutex
+	var wg sync.WaitGroup
+	emit := func(obs *Obs) {
 		j, _ := json.Marshal(map[string]any{"obs": obs})
+		mu.Lock()
 		out.Write(append(j, '\n'))
+		mu.Unlock()
 	}
+	for _, cs := range batch {
+		mu.Lock()
+		fmt.Fprintf(out, "{\"start\":%d}\n", cs.N)
+		mu.Unlock()
+		obs := w.runCase(cs)
+		if fin := w.finish; fin != nil {
+			wg.Add(1)
+			go func() { defer wg.Done(); fin(); emit(obs) }()
+		} else {
+			emit(obs)
+		}
+	}
+	wg.Wait()
 	out.Close()
 	os.Exit(0)
 }
